@@ -16,7 +16,8 @@ use corrlib::*;
 use serde_json::json;
 
 /// the event list of quick-xml's reader in the driver encoding; an attribute syntax error is the
-/// pair of empty attributes `=`,`=` (what the model emits), after which the tag's list ends
+/// marker `=` (one attribute with empty key and value: what the model emits), after which the
+/// tag's list ends
 pub fn qx_events_marked(xml: &[u8]) -> Vec<String> {
     use quick_xml::events::Event;
     let mut r = quick_xml::Reader::from_reader(xml);
@@ -36,7 +37,7 @@ pub fn qx_events_marked(xml: &[u8]) -> Vec<String> {
                     s.push_str(&fhex(&a.value));
                 }
                 Err(_) => {
-                    s.push_str(",=,=");
+                    s.push_str(",=");
                     break;
                 }
             }
@@ -155,7 +156,7 @@ pub fn run(rep: &mut Report) {
             let qx = qx_events_marked(&bytes);
             let tok = if qx.is_empty() { "-".to_string() } else { qx.join(" ") };
             rep.count(if qx.last().map(|s| s == "x").unwrap_or(false) { "bytes.tokenizer.err" } else { "bytes.tokenizer.ok" });
-            if qx.iter().any(|e| e.ends_with(",=,=")) {
+            if qx.iter().any(|e| e.ends_with(",=")) {
                 rep.count("bytes.attribute_syntax_error");
             }
             reqs.push(format!("jacocotok {}", fhex(&bytes)).trim_end().to_string());
